@@ -12,7 +12,7 @@ func init() { CaseFns["C16"] = caseC16 }
 // checkRegistry compares everything the registry reports with the registration log.
 func checkRegistry(s *Sess, where string) bool {
 	w := s.W
-	ids := ecs.ComponentIDs(w)
+	ids := scribbled(ecs.ComponentIDs(w))
 	if len(ids) != len(s.M.Types) {
 		s.fail("registry.count", "%s: ComponentIDs reports %d types, %d were registered", where, len(ids), len(s.M.Types))
 		return false
@@ -272,7 +272,7 @@ func caseC16Res(c *Ctx, n int) {
 		}
 	}
 	if !s.Failed() {
-		ids := ecs.ResourceIDs(&w)
+		ids := scribbledRes(ecs.ResourceIDs(&w))
 		if len(ids) != n {
 			s.fail("resreg.count", "ResourceIDs reports %d, %d registered", len(ids), n)
 		}
